@@ -93,7 +93,9 @@ CLAIMED["C14"] = ("verif-net", "DESIGN.md §3 C14",
     "the driver owns the hosts' inboxes and decides when a host reacts. Injected: datagrams, datagrams to non-existing hosts, echo requests, SCMP errors, SCMP errors to non-existing hosts and malformed SCMP, with payloads 0..9216 B (boundary-directed around the 1232-byte budget), "
     "on control-plane-built paths, with a link of the route down, the path expired, or neither (the reference network of C13 tells which outcome is due). Every SCMP message that reaches any host is checked: checksum valid by an independent pseudo-header checksum, error packets <= 1232 B whose quote is a prefix of the injected packet "
     "(modulo the fields routers rewrite in flight); an echo request is answered exactly once with identical identifier/sequence/data, addressed back to the requester and delivered there; SCMP errors and malformed SCMP never trigger any packet; at most two packets per injection; the exchange terminates; datagram delivery is exactly-once. "
-    "Not covered: the endhost socket receive loop (UdpScionSocket::recv_from*, pub(crate) underlay seam: the planned hook H8 was not built), ScmpErrorHandler (pub(crate)) and the tunnel gateway's SCMP construction. Evidence, not proof.",
+    "A third of the runs exercise the endhost side instead: the real PathUnawareUdpScionSocket::recv_from loop with the stack's ScmpErrorHandler (and optionally DefaultEchoHandler) over a simulated underlay on the simrt runtime (hook H8): datagrams and SCMP packets of every kind (all five error types, echo request/reply, traceroute, malformed, foreign protocols) "
+    "arrive in drawn order, the receiving task is cancelled and restarted, the underlay wakes it spuriously, reply sending fails with WouldBlock/Closed; every datagram is returned exactly once and in order, every SCMP error reaches the registered receiver exactly once, only echo requests are answered (once). "
+    "Not covered: UdpScionSocket's path-aware wrapper around that loop, the tunnel gateway's SCMP construction. Evidence, not proof.",
     NET_NOTE, NET_TECH)
 
 NOT_APPLICABLE = {
